@@ -59,7 +59,14 @@ func NewSlidingWindowMetric(sampleCount, intervalInMs uint32, real *BucketLeapAr
 func (m *SlidingWindowMetric) getBucketStartRange(timeMs uint64) (start, end uint64) {
 	curBucketStartTime := calculateStartTime(timeMs, m.real.BucketLengthInMs())
 	end = curBucketStartTime
-	start = end - uint64(m.intervalInMs) + uint64(m.real.BucketLengthInMs())
+	// The window is [windowEnd-intervalInMs, windowEnd); clamp at 0 so that the unsigned
+	// subtraction cannot wrap around when the clock value is smaller than the interval.
+	windowEnd := end + uint64(m.real.BucketLengthInMs())
+	if windowEnd >= uint64(m.intervalInMs) {
+		start = windowEnd - uint64(m.intervalInMs)
+	} else {
+		start = 0
+	}
 	return
 }
 
